@@ -500,6 +500,13 @@ class SSETransport(Transport):
                             await self._route_incoming_message(error_response)
                         except asyncio.CancelledError:
                             logger.debug(f"Request {message_id} was cancelled")
+                            # Only the cancellation of the pending future (cleanup,
+                            # immediate answer) may be absorbed; if this task itself
+                            # is being cancelled, swallowing it would leave the sender
+                            # loop running and _cleanup() waiting for it forever.
+                            task = asyncio.current_task()
+                            if task is not None and task.cancelling():
+                                raise
                     else:
                         # Unexpected status
                         logger.warning(
